@@ -1,6 +1,8 @@
 ---------------------------- MODULE MC_PairPot ----------------------------
 (***************************************************************************)
-(* Model of property C12.  One state per (model, shift, parameter point).  *)
+(* Model of property C12.  One state per (model, shift, parameter point);   *)
+(* the points are a product grid plus boundary values of the documented    *)
+(* domain (EdgePars).  Histories of calls: see MC_PairPotSession.           *)
 (* The clauses "the documented closed forms are the derivatives of the     *)
 (* documented energy", "the cut-off term is s'(r_c)" and the force-shift   *)
 (* identities are INVARIANTs; Emit prints, per state, the canonical        *)
@@ -36,8 +38,8 @@ AlphaSet == IF Quick THEN {<<2, 1>>, <<5, 2>>, <<3, 2>>, <<3, 1>>}
 IsInt(q) == q[2] = 1
 
 \* distances: both sides of sigma and of r_c, including r = r_c and r = sigma
-RSeqBase == << <<1, 4>>, <<3, 8>>, <<1, 2>>, <<5, 8>>, <<3, 4>>, <<9, 10>>, <<1, 1>>, <<21, 20>>, <<28, 25>>, <<5, 4>>, <<3, 2>>,
-               <<2, 1>>, <<5, 2>>, <<3, 1>>, <<7, 2>> >>
+RSeqBase == << <<1, 4>>, <<3, 8>>, <<1, 2>>, <<5, 8>>, <<3, 4>>, <<9, 10>>, <<1, 1>>, <<21, 20>>, <<11, 10>>, <<28, 25>>, <<5, 4>>,
+               <<3, 2>>, <<2, 1>>, <<5, 2>>, <<3, 1>>, <<7, 2>> >>
 \* (a seed-dependent distance that coincides with an earlier one is dropped)
 RECURSIVE Dedup(_, _)
 Dedup(sq, acc) == IF sq = << >> THEN acc
@@ -46,10 +48,13 @@ Dedup(sq, acc) == IF sq = << >> THEN acc
 RSeqAll  == Dedup(RSeqBase \o << Jit(7, 0, 1, 16), Jit(8, 1, 2, 13), Jit(9, 2, 4, 10), Jit(10, 0, 3, 17) >>, << >>)
 
 \* Hertz: for non-integer alpha the law is real only for r < sigma; r = sigma itself is
-\* excluded (s'' is singular there for alpha < 2 and 0^0 for alpha = 2)
+\* excluded where the documented s'' has no value there (singular for alpha < 2, 0^0 for
+\* alpha = 2) and for non-integer alpha; for an integer alpha >= 3 the documented forms give
+\* s' = s'' = 0 at contact (0^(alpha-1), 0^(alpha-2) with positive integer exponents), asserted
 RSeq(m, p) ==
   IF m # "harmonic_hertz" THEN RSeqAll
-  ELSE SelectSeq(RSeqAll, LAMBDA r : ~REq(r, p.sigma) /\ (IsInt(p.alpha) \/ RLt(r, p.sigma)))
+  ELSE SelectSeq(RSeqAll, LAMBDA r : /\ (REq(r, p.sigma) => IsInt(p.alpha) /\ p.alpha[1] >= 3)
+                                     /\ (IsInt(p.alpha) \/ RLt(r, p.sigma)))
 
 \* parameter points.  Every point carries n, A and alpha (the selector must ignore the
 \* ones the requested model does not use).  Hertz: the documented cut-off is sigma; with
@@ -66,7 +71,28 @@ ParsOf(m, sh) ==
        : e \in EpsSet, al \in AlphaSet,
          pr \in {q \in SigmaSet \X (RcSet \cup SigmaSet) : sh => q[2] = q[1]}}
 
-Key(p) == p.eps[1] + 3 * p.sigma[1] + 5 * p.rc[1] + 7 * p.n[1] + 11 * p.A[1] + 13 * p.alpha[1]
+\* ---- boundary values of the documented domain (added to the product grid above) ----
+\* The property quantifies over every energy scale and prefactor: eps and A are arbitrary reals,
+\* including 0 (all three derivatives vanish identically) and negative values (the sign of every
+\* member flips); a cut-off exactly at sigma; (Hertz at contact: see RSeq).  Only values for which
+\* the documented formulas define the triple are listed.
+ZeroNeg == {<<0, 1>>, <<0 - 3, 4>>}
+EdgePars(m, sh) ==
+  IF m = "lennard_jones" THEN
+    {[eps |-> e, sigma |-> s, rc |-> <<5, 2>>, n |-> <<7, 1>>, A |-> <<3, 1>>, alpha |-> <<5, 1>>]
+       : e \in ZeroNeg, s \in SigmaSet}
+    \cup {[eps |-> <<3, 2>>, sigma |-> s, rc |-> s, n |-> <<7, 1>>, A |-> <<3, 1>>, alpha |-> <<5, 1>>] : s \in SigmaSet}
+  ELSE IF m = "inverse_power_law" THEN
+    {[eps |-> pr[1], sigma |-> pr[2], rc |-> <<5, 2>>, n |-> nn, A |-> a, alpha |-> <<5, 1>>]
+       : pr \in EpsSet \X SigmaSet, nn \in NSet, a \in {<<0, 1>>, <<0 - 1, 2>>}}
+    \cup {[eps |-> e, sigma |-> <<11, 10>>, rc |-> <<28, 25>>, n |-> nn, A |-> <<2, 3>>, alpha |-> <<5, 1>>]
+           : e \in ZeroNeg, nn \in NSet}
+  ELSE
+    {[eps |-> e, sigma |-> s, rc |-> s, n |-> <<7, 1>>, A |-> <<3, 1>>, alpha |-> al]
+       : e \in ZeroNeg, s \in SigmaSet, al \in AlphaSet}
+AllPars(m, sh) == ParsOf(m, sh) \cup EdgePars(m, sh)
+
+Key(p) == 4000 + p.eps[1] + 3 * p.sigma[1] + 5 * p.rc[1] + 7 * p.n[1] + 11 * p.A[1] + 13 * p.alpha[1]
           + 17 * p.sigma[2] + 19 * p.n[2]
 
 \* ---- the clauses of C12 at model level, per potential ----
@@ -95,7 +121,7 @@ Init ==
   /\ tabs = [pot |-> PotTable, cl |-> TLCEval([m \in Models |-> Clauses(m)])]
   /\ model \in Models
   /\ shift \in BOOLEAN
-  /\ par \in ParsOf(model, shift)
+  /\ par \in AllPars(model, shift)
   /\ Key(par) % NSHARDS = SHARD
 
 Next == UNCHANGED vars
@@ -113,9 +139,20 @@ InvLeaves  == tabs.cl[model].leaves[shift]
 \* a sum of k real-power monomials has at most k - 1 positive zeros)
 InvGrid    == /\ Len(RSeq(model, par)) >= 2 * tabs.cl[model].nmax + 2
               /\ Cardinality({RNorm(q[1], q[2]) : q \in Range(RSeq(model, par))}) = Len(RSeq(model, par))
-InvDomain  == /\ RLt(RZero, par.eps) /\ RLt(RZero, par.sigma) /\ RLt(RZero, par.rc)
+\* (eps and A are arbitrary rationals: zero and negative values belong to the scope, see EdgePars)
+InvDomain  == /\ RLt(RZero, par.sigma) /\ RLt(RZero, par.rc)
               /\ RLt(<<1, 1>>, par.alpha) /\ RLt(RZero, par.n)
               /\ \A q \in Range(RSeq(model, par)) : RLt(RZero, q)
+              /\ (model = "harmonic_hertz" /\ shift => REq(par.rc, par.sigma))
+\* the boundary values are in the scope of every run: A = 0, A < 0 (selector and method), eps = 0, eps < 0,
+\* r_c = sigma, and Hertz exactly at contact for an integer exponent
+InvEdges   == /\ \E p \in AllPars("inverse_power_law", shift) : p.A[1] = 0
+              /\ \E p \in AllPars("inverse_power_law", shift) : p.A[1] < 0
+              /\ \A m \in Models : /\ \E p \in AllPars(m, shift) : p.eps[1] = 0
+                                    /\ \E p \in AllPars(m, shift) : p.eps[1] < 0
+              /\ \E p \in AllPars("lennard_jones", shift) : REq(p.rc, p.sigma)
+              /\ \E p \in AllPars("harmonic_hertz", shift) :
+                    \E r \in Range(RSeq("harmonic_hertz", p)) : REq(r, p.sigma)
 
 \* ---- emission (direction A) ----
 \* the derivative terms depend on (model, shift) only: they are printed with the lead
@@ -132,7 +169,8 @@ Point ==
     shift |-> shift,
     par   |-> par,
     rs    |-> RSeq(model, par),
-    Adefault |-> (model = "inverse_power_law" /\ par.A = <<1, 1>>) ]
+    Adefault |-> (model = "inverse_power_law" /\ par.A = <<1, 1>>),
+    edge  |-> par \in EdgePars(model, shift) ]
 Terms ==
   [ m     |-> "Terms",
     model |-> model,
